@@ -91,7 +91,7 @@ Section Glue.
   (** the lines of estimate_zscore after [loc] and [scale] have been obtained *)
   Definition ztail (data loc scale : nd) (axis : option Z) : nd * nd * nd :=
     let zscores := memo (np_sub data loc) in
-    let tiny := memo (np_mul (scalar float32_eps) (np_reduce max1 (np_abs zscores) axis true)) in
+    let tiny := memo (np_mul (scalar float32_tiny) (np_reduce max1 (np_abs zscores) axis true)) in
     let zero_scales := memo (np_le scale tiny) in
     let scale := if np_any zero_scales then memo (np_where zero_scales (scalar (qz 1)) scale) else scale in
     let zscores := memo (np_div zscores scale) in
@@ -115,7 +115,7 @@ Section Glue.
         destruct Hx as [j [<- _]]; eexists; reflexivity.
     - cbn [get]. eexists. split; [reflexivity|]. unfold ravel. intros x Hx. apply in_map_iff in Hx. destruct Hx as [j [<- _]]. eexists; reflexivity. Qed.
 
-  Lemma float32_eps_pos : (Q2Qc 0 < float32_eps)%Qc.
+  Lemma float32_tiny_pos : (Q2Qc 0 < float32_tiny)%Qc.
   Proof. reflexivity. Qed.
 
   Section ZTail.
@@ -125,7 +125,7 @@ Section Glue.
     Hypothesis Bl : bc sh (shape loc).
     Hypothesis Bs : bc sh (shape scale).
     Let z0 := memo (np_sub data loc).
-    Let tiny := memo (np_mul (scalar float32_eps) (np_reduce max1 (np_abs z0) axis true)).
+    Let tiny := memo (np_mul (scalar float32_tiny) (np_reduce max1 (np_abs z0) axis true)).
     Let zs := memo (np_le scale tiny).
     Let scale' := if np_any zs then memo (np_where zs (scalar (qz 1)) scale) else scale.
 
@@ -137,14 +137,14 @@ Section Glue.
       rewrite <- S at 1. apply bc_reduce. now rewrite S. Qed.
     Lemma tiny_nonneg I : length I = length sh -> (Q2Qc 0 <= rd tiny I)%Qc.
     Proof. intro HI. unfold tiny. unfold rd at 1. rewrite (memo_shape memo Hm), (memo_get memo Hm).
-      fold (rd (np_mul (scalar float32_eps) (np_reduce max1 (np_abs z0) axis true)) I).
+      fold (rd (np_mul (scalar float32_tiny) (np_reduce max1 (np_abs z0) axis true)) I).
       assert (B : bc sh (shape (np_reduce max1 (np_abs z0) axis true))).
       { assert (S : shape (np_abs z0) = sh) by (cbn [shape np_abs nd_map]; apply z0_shape). rewrite <- S at 1. apply bc_reduce. now rewrite S. }
       unfold np_mul. rewrite (rd_map2 sh) by (try assumption; now left).
       unfold rd at 2. destruct (reduce_get_list max1 (np_abs z0) axis true (bidx (shape (np_reduce max1 (np_abs z0) axis true)) I)) as [L [E HL]].
       rewrite E. assert (Hmx : (Q2Qc 0 <= max1 L)%Qc).
       { apply max1_nonneg. intros x Hx. destruct (HL x Hx) as [idx ->]. cbn [get np_abs nd_map]. apply Qcabs_nonneg. }
-      unfold rd. cbn [get scalar]. pose proof float32_eps_pos as He. qc2q. nra. Qed.
+      unfold rd. cbn [get scalar]. pose proof float32_tiny_pos as He. qc2q. nra. Qed.
 
     (** the zero-scale guard: the array that divides is strictly positive wherever it is read, and the Z-score there is
         (sample - location) / that divisor *)
@@ -202,7 +202,7 @@ Section Glue.
     rel_of (affine a b) data data' -> rel_of (affine a b) loc loc' -> rel_of (scale (Qcabs a)) sc sc' ->
     let '(z, _, s) := ztail data loc sc axis in
     let '(z', _, s') := ztail data' loc' sc' axis in
-    let fired := Qcleb (rd sc I) (rd (memo (np_mul (scalar float32_eps) (np_reduce max1 (np_abs (memo (np_sub data loc))) axis true))) I) in
+    let fired := Qcleb (rd sc I) (rd (memo (np_mul (scalar float32_tiny) (np_reduce max1 (np_abs (memo (np_sub data loc))) axis true))) I) in
     (rd s' I = if fired then qz 1 else scale (Qcabs a) (rd s I)) /\
     (fired = false -> rd z' I = (a / Qcabs a * rd z I)%Qc) /\ (fired = true -> rd z' I = (a * rd z I)%Qc).
   Proof. intros Ha Hsh Hd Bl Bs HI Rd Rl Rs.
@@ -213,8 +213,8 @@ Section Glue.
     pose proof (ztail_rd sh data loc sc axis Hsh Hd Bl Bs I HI) as P.
     pose proof (ztail_rd sh data' loc' sc' axis Hsh Hd' Bl' Bs' I HI) as P'.
     unfold ztail in *. cbv zeta in *.
-    assert (Rt : rel_of (scale (Qcabs a)) (memo (np_mul (scalar float32_eps) (np_reduce max1 (np_abs (memo (np_sub data loc))) axis true)))
-                                          (memo (np_mul (scalar float32_eps) (np_reduce max1 (np_abs (memo (np_sub data' loc'))) axis true)))).
+    assert (Rt : rel_of (scale (Qcabs a)) (memo (np_mul (scalar float32_tiny) (np_reduce max1 (np_abs (memo (np_sub data loc))) axis true)))
+                                          (memo (np_mul (scalar float32_tiny) (np_reduce max1 (np_abs (memo (np_sub data' loc'))) axis true)))).
     { apply rel_memo; [exact Hm|]. eapply (rel_map2 Qcmult (fun x => x) (scale (Qcabs a)) (scale (Qcabs a))); [intros; unfold scale; ring|apply rel_scalar_id|].
       apply (rel_reduce max1 (scale (Qcabs a)) (scale (Qcabs a))); [intro; now apply max1_scale|].
       apply (rel_map1 Qcabs (scale a)); [intro; unfold scale; apply Qcabs_Qcmult|].
